@@ -535,6 +535,17 @@ fn leak_name(n: &str) -> &'static str {
     s
 }
 
+pub fn strip_now(r: &str) -> String {
+    match r.find(" now=") {
+        Some(i) => r[..i].to_string(),
+        None => r.to_string(),
+    }
+}
+
+pub fn handle_pub(st: &mut St, line: &str) -> Result<String, String> {
+    handle(st, line)
+}
+
 fn handle(st: &mut St, line: &str) -> Result<String, String> {
     let mut it = line.split(' ');
     let cmd = it.next().unwrap_or("");
@@ -975,7 +986,7 @@ fn handle(st: &mut St, line: &str) -> Result<String, String> {
             }
             Ok("ok".into())
         }
-        "KIL" | "TRC" | "CON" | "STRESS" => conc::handle(st, cmd, &a),
+        "KIL" | "TRC" | "CON" | "STRESS" | "MLN" => conc::handle(st, cmd, &a),
         _ => {
             let store = st.store.as_ref().ok_or("nostore")?;
             store_req(store, cmd, &a)
